@@ -312,7 +312,9 @@ func versionOf(pol int) int {
 	return 2
 }
 
-func contains(s, sub string) bool { return len(sub) <= len(s) && (func() bool { return indexOf(s, sub) >= 0 })() }
+func contains(s, sub string) bool {
+	return len(sub) <= len(s) && (func() bool { return indexOf(s, sub) >= 0 })()
+}
 func indexOf(s, sub string) int {
 	for i := 0; i+len(sub) <= len(s); i++ {
 		if s[i:i+len(sub)] == sub {
